@@ -49,7 +49,16 @@ class Tag(models.Model):
         db_table = "tag"
 
 
+class VisibleManager(models.Manager):
+    """A second, pre-filtering manager (not the default one)."""
+
+    def get_queryset(self):
+        return super().get_queryset().filter(rating__gte=5)
+
+
 class Post(models.Model):
+    objects = models.Manager()
+    visible = VisibleManager()
     title = models.CharField(max_length=50)
     rating = models.IntegerField()
     author = models.ForeignKey(Author, null=True, on_delete=models.SET_NULL,
